@@ -272,6 +272,10 @@ func (r *ClientPeerRef) Send(ctx context.Context, msg []byte) (_ *signaling_rpc.
 					txed = true
 					tkr.out = sessMsg
 					broadcast()
+				} else if tkr.out.Seqno == seqno {
+					// Our message is still queued after the session was re-opened:
+					// the main routine transmits it again under the new session.
+					txed = true
 				}
 
 				waitCh = getWaitCh()
